@@ -8,6 +8,12 @@ die    = {"id": int, "tag": int, "children": [die...], "has_children": bool (wha
 attr   = {"name": int, "form": str, "value": ...}   forms: data1 data2 data4 data8 sdata udata string flag
           flag_present addr ref4 ref_udata ref_addr sec_offset exprloc block1 implicit_const strp
           indirect:<form> loclist (v2-4: sec_offset into .debug_loc, value = [(lo, hi, [ops]), ...])
+          rangelist (value = [(lo, hi), ...]); in a version 5 unit loclist / rangelist go to .debug_loclists /
+          .debug_rnglists, and there are the indexed forms strx strx1-4 (value = bytes), addrx addrx1-4 (value =
+          address), rnglistx (value = [(lo, hi), ...] or [(kind, a, b), ...] with the DW_RLE_ kinds start_end
+          start_length offset_pair base_address startx_endx startx_length base_addressx), loclistx (value =
+          [(lo, hi, ops), ...] or [(kind, a, b, ops), ...] with the DW_LLE_ kinds, default_location among them),
+          line_strp, data16 (value = 16 bytes); the unit's root gets the DW_AT_*_base attributes it needs
 ops    = [(opcode, [operands...]), ...]
 
 No relocations are needed: every cross reference is a difference of two labels of one section.
@@ -19,7 +25,9 @@ FORM = {"addr": 0x01, "block2": 0x03, "block4": 0x04, "data2": 0x05, "data4": 0x
         "block": 0x09, "block1": 0x0a, "data1": 0x0b, "flag": 0x0c, "sdata": 0x0d, "strp": 0x0e, "udata": 0x0f,
         "ref_addr": 0x10, "ref1": 0x11, "ref2": 0x12, "ref4": 0x13, "ref8": 0x14, "ref_udata": 0x15, "indirect": 0x16,
         "sec_offset": 0x17, "exprloc": 0x18, "flag_present": 0x19, "implicit_const": 0x21,
-        "GNU_ref_alt": 0x1f20, "GNU_strp_alt": 0x1f21}
+        "strx": 0x1a, "addrx": 0x1b, "data16": 0x1e, "line_strp": 0x1f, "loclistx": 0x22, "rnglistx": 0x23,
+        "strx1": 0x25, "strx2": 0x26, "strx3": 0x27, "strx4": 0x28, "addrx1": 0x29, "addrx2": 0x2a, "addrx3": 0x2b, "addrx4": 0x2c,
+        "GNU_addr_index": 0x1f01, "GNU_str_index": 0x1f02, "GNU_ref_alt": 0x1f20, "GNU_strp_alt": 0x1f21}
 
 # operand encodings of the location operations we generate
 OPS = {
@@ -91,6 +99,16 @@ def _expr(a, ops, cu_label, info_base, uniq):
             elif kind == "refaddr": a.emit(".long die_%d - %s" % (v, info_base))
 
 
+def _list_entries(d):
+    """All entries of the range / location lists below a DIE (to see whether they use the address table)."""
+    for at in d["attrs"]:
+        if at["form"].split(":")[-1] in ("rnglistx", "loclistx", "rangelist", "loclist") and isinstance(at.get("value"), (list, tuple)):
+            for e in at["value"]:
+                yield tuple(e)
+    for c in d["children"]:
+        yield from _list_entries(c)
+
+
 def generate(forest, path_s):
     """Writes assembler source.  Returns the list of abbreviation tables as built:
     [{"group": g, "abbrevs": [{"code", "tag", "children", "attrs": [(name, form, implicit)]}]}]"""
@@ -111,7 +129,7 @@ def generate(forest, path_s):
                 attrs.append((at["name"], "indirect", None))
             elif f == "implicit_const":
                 attrs.append((at["name"], "implicit_const", at["value"]))
-            elif f in ("loclist", "rangelist"):
+            elif f in ("loclist", "rangelist", "sec_label"):
                 attrs.append((at["name"], "sec_offset" if version >= 4 else "data4", None))
             else:
                 attrs.append((at["name"], f, None))
@@ -130,6 +148,27 @@ def generate(forest, path_s):
 
     loc_entries = []
     range_entries = []
+    v5 = {}            # unit index -> {"strx": [bytes], "addrx": [addr], "rnglists": [(uniq, value, indexed)], "loclists": [...]}
+    line_strs = []
+
+    def v5tab(ui):
+        return v5.setdefault(ui, {"strx": [], "addrx": [], "rnglists": [], "loclists": []})
+
+    def index_of(lst, v):
+        if v not in lst:
+            lst.append(v)
+        return lst.index(v)
+
+    def emit_index(f, idx):
+        w = f[-1]
+        if w == "x": a.emit(".uleb128 %d" % idx)          # strx, addrx, GNU_str_index, GNU_addr_index
+        elif w == "1": a.emit(".byte %d" % idx)
+        elif w == "2": a.emit(".value %d" % idx)
+        elif w == "3": a.emit(".byte %d, %d, %d" % (idx & 0xff, (idx >> 8) & 0xff, (idx >> 16) & 0xff))
+        elif w == "4": a.emit(".long %d" % idx)
+
+    def uses(d, pred):
+        return any(pred(at["form"].split(":")[-1]) for at in d["attrs"]) or any(uses(c, pred) for c in d["children"])
 
     def emit_die(d, u, ui, cu_label):
         tab = tables[u.get("table", id(u))]
@@ -179,12 +218,37 @@ def generate(forest, path_s):
                 else:
                     _expr(a, v, cu_label, ".Ldebug_info0", uniq)
                 a.label(".Lexpr_%s_e" % uniq)
+            elif f == "loclist" and u["version"] >= 5:
+                a.emit(".long .Lll_%s - .Ldebug_loclists0" % uniq)
+                v5tab(ui)["loclists"].append((uniq, v, False, cu_label))
+            elif f == "rangelist" and u["version"] >= 5:
+                a.emit(".long .Lrl_%s - .Ldebug_rnglists0" % uniq)
+                v5tab(ui)["rnglists"].append((uniq, v, False, cu_label))
             elif f == "loclist":
                 a.emit(".long .Lloc_%s - .Ldebug_loc0" % uniq)
                 loc_entries.append((uniq, v, cu_label))
             elif f == "rangelist":
                 a.emit(".long .Lrng_%s - .Ldebug_ranges0" % uniq)
                 range_entries.append((uniq, v))
+            elif f in ("strx", "strx1", "strx2", "strx3", "strx4", "GNU_str_index"):
+                bs = v if isinstance(v, (bytes, bytearray)) else v.encode("latin-1")
+                emit_index(f, index_of(v5tab(ui)["strx"], bytes(bs)))
+            elif f in ("addrx", "addrx1", "addrx2", "addrx3", "addrx4", "GNU_addr_index"):
+                emit_index(f, index_of(v5tab(ui)["addrx"], v))
+            elif f == "rnglistx":
+                t = v5tab(ui)["rnglists"]
+                a.emit(".uleb128 %d" % len([1 for e in t if e[2]]))
+                t.append((uniq, v, True, cu_label))
+            elif f == "loclistx":
+                t = v5tab(ui)["loclists"]
+                a.emit(".uleb128 %d" % len([1 for e in t if e[2]]))
+                t.append((uniq, v, True, cu_label))
+            elif f == "line_strp":
+                a.emit(".long .Llstr_%s - .Ldebug_line_str0" % uniq); line_strs.append((uniq, v))
+            elif f == "data16":
+                a.emit(".byte " + ", ".join(str(b) for b in v))
+            elif f == "sec_label":
+                a.emit(".long %s" % v)
             else:
                 raise ValueError("form " + f)
         hc = d.get("has_children", bool(d["children"]))
@@ -213,7 +277,23 @@ def generate(forest, path_s):
             a.emit(".long " + tl)
             a.emit(".byte 8")
         if u.get("root") is not None:
-            emit_die(u["root"], u, ui, cu)
+            root = u["root"]
+            if True:
+                extra = []
+                if uses(root, lambda f: f.startswith("strx") or f == "GNU_str_index"):
+                    extra.append({"name": 0x72, "form": "sec_label", "value": ".Lsxbase_%d - .Ldebug_str_offsets0" % ui})
+                need_addr = uses(root, lambda f: f.startswith("addrx") or f == "GNU_addr_index") or any(
+                    isinstance(e, tuple) and isinstance(e[0], str) and "x" in e[0]
+                    for d in [root] for e in _list_entries(d))
+                if need_addr:
+                    extra.append({"name": 0x73 if u["version"] >= 5 else 0x2133, "form": "sec_label", "value": ".Laxbase_%d - .Ldebug_addr0" % ui})
+                if uses(root, lambda f: f == "rnglistx"):
+                    extra.append({"name": 0x74, "form": "sec_label", "value": ".Lrlbase_%d - .Ldebug_rnglists0" % ui})
+                if uses(root, lambda f: f == "loclistx"):
+                    extra.append({"name": 0x8c, "form": "sec_label", "value": ".Lllbase_%d - .Ldebug_loclists0" % ui})
+                if extra:
+                    root = dict(root); root["attrs"] = list(root["attrs"]) + extra
+            emit_die(root, u, ui, cu)
         a.label(cu + "_end")
     a.emit('.section .debug_abbrev,"",@progbits')
     a.label(".Ldebug_abbrev0")
@@ -251,6 +331,107 @@ def generate(forest, path_s):
             for lo, hi in ranges:
                 a.emit(".quad %d" % lo); a.emit(".quad %d" % hi)
             a.emit(".quad 0"); a.emit(".quad 0")
+    RLE = {"end_of_list": 0, "base_addressx": 1, "startx_endx": 2, "startx_length": 3, "offset_pair": 4, "base_address": 5,
+           "start_end": 6, "start_length": 7}
+    LLE = {"end_of_list": 0, "base_addressx": 1, "startx_endx": 2, "startx_length": 3, "offset_pair": 4, "default_location": 5,
+           "base_address": 6, "start_end": 7, "start_length": 8}
+
+    def emit_range_operands(kind, x, y, ui):
+        if kind in ("start_end",): a.emit(".quad %d" % x); a.emit(".quad %d" % y)
+        elif kind == "start_length": a.emit(".quad %d" % x); a.emit(".uleb128 %d" % y)
+        elif kind == "offset_pair": a.emit(".uleb128 %d" % x); a.emit(".uleb128 %d" % y)
+        elif kind == "base_address": a.emit(".quad %d" % x)
+        elif kind == "startx_endx":
+            a.emit(".uleb128 %d" % index_of(v5tab(ui)["addrx"], x)); a.emit(".uleb128 %d" % index_of(v5tab(ui)["addrx"], y))
+        elif kind == "startx_length": a.emit(".uleb128 %d" % index_of(v5tab(ui)["addrx"], x)); a.emit(".uleb128 %d" % y)
+        elif kind == "base_addressx": a.emit(".uleb128 %d" % index_of(v5tab(ui)["addrx"], x))
+        elif kind == "default_location": pass
+
+    if any(t["rnglists"] for t in v5.values()):
+        a.emit('.section .debug_rnglists,"",@progbits')
+        a.label(".Ldebug_rnglists0")
+        for ui, t in sorted(v5.items()):
+            if not t["rnglists"]:
+                continue
+            idx = [e for e in t["rnglists"] if e[2]]
+            a.emit(".long .Lrlend_%d - .Lrlver_%d" % (ui, ui)); a.label(".Lrlver_%d" % ui)
+            a.emit(".value 5"); a.emit(".byte 8"); a.emit(".byte 0"); a.emit(".long %d" % len(idx))
+            a.label(".Lrlbase_%d" % ui)
+            for (uniq, v, _, _) in idx:
+                a.emit(".long .Lrl_%s - .Lrlbase_%d" % (uniq, ui))
+            for (uniq, v, _, _) in t["rnglists"]:
+                a.label(".Lrl_%s" % uniq)
+                for e in v:
+                    e = tuple(e)
+                    if not isinstance(e[0], str):
+                        e = ("start_end",) + e
+                    a.emit(".byte %d" % RLE[e[0]])
+                    emit_range_operands(e[0], e[1] if len(e) > 1 else 0, e[2] if len(e) > 2 else 0, ui)
+                a.emit(".byte 0")
+            a.label(".Lrlend_%d" % ui)
+    if any(t["loclists"] for t in v5.values()):
+        a.emit('.section .debug_loclists,"",@progbits')
+        a.label(".Ldebug_loclists0")
+        for ui, t in sorted(v5.items()):
+            if not t["loclists"]:
+                continue
+            idx = [e for e in t["loclists"] if e[2]]
+            a.emit(".long .Lllend_%d - .Lllver_%d" % (ui, ui)); a.label(".Lllver_%d" % ui)
+            a.emit(".value 5"); a.emit(".byte 8"); a.emit(".byte 0"); a.emit(".long %d" % len(idx))
+            a.label(".Lllbase_%d" % ui)
+            for (uniq, v, _, _) in idx:
+                a.emit(".long .Lll_%s - .Lllbase_%d" % (uniq, ui))
+            for (uniq, v, _, cu_label) in t["loclists"]:
+                a.label(".Lll_%s" % uniq)
+                for ri, e in enumerate(v):
+                    e = tuple(e)
+                    if not isinstance(e[0], str):
+                        e = ("start_end",) + e
+                    kind, ops = e[0], e[-1]
+                    a.emit(".byte %d" % LLE[kind])
+                    emit_range_operands(kind, e[1] if len(e) > 2 else 0, e[2] if len(e) > 3 else 0, ui)
+                    if kind not in ("base_address", "base_addressx"):
+                        a.emit(".uleb128 .Lle5_%s_%d_e - .Lle5_%s_%d_s" % (uniq, ri, uniq, ri))
+                        a.label(".Lle5_%s_%d_s" % (uniq, ri))
+                        _expr(a, ops, cu_label, ".Ldebug_info0", "%s_v%d" % (uniq, ri))
+                        a.label(".Lle5_%s_%d_e" % (uniq, ri))
+                a.emit(".byte 0")
+            a.label(".Lllend_%d" % ui)
+    if any(t["addrx"] for t in v5.values()):
+        a.emit('.section .debug_addr,"",@progbits')
+        a.label(".Ldebug_addr0")
+        for ui, t in sorted(v5.items()):
+            if not t["addrx"]:
+                continue
+            if units[ui]["version"] >= 5:          # the GNU precursor (DW_FORM_GNU_addr_index in a version 4 unit) has no header
+                a.emit(".long .Laxend_%d - .Laxver_%d" % (ui, ui)); a.label(".Laxver_%d" % ui)
+                a.emit(".value 5"); a.emit(".byte 8"); a.emit(".byte 0")
+            a.label(".Laxbase_%d" % ui)
+            for ad in t["addrx"]:
+                a.emit(".quad %d" % ad)
+            a.label(".Laxend_%d" % ui)
+    if any(t["strx"] for t in v5.values()):
+        a.emit('.section .debug_str_offsets,"",@progbits')
+        a.label(".Ldebug_str_offsets0")
+        for ui, t in sorted(v5.items()):
+            if not t["strx"]:
+                continue
+            if units[ui]["version"] >= 5:
+                a.emit(".long .Lsxend_%d - .Lsxver_%d" % (ui, ui)); a.label(".Lsxver_%d" % ui)
+                a.emit(".value 5"); a.emit(".value 0")
+            a.label(".Lsxbase_%d" % ui)
+            for k, bs in enumerate(t["strx"]):
+                a.emit(".long .Lstr_sx%d_%d - .Ldebug_str0" % (ui, k))
+                forest.setdefault("_strs", []).append(("sx%d_%d" % (ui, k), bs))
+            a.label(".Lsxend_%d" % ui)
+    if line_strs:
+        a.emit('.section .debug_line_str,"MS",@progbits,1')
+        a.label(".Ldebug_line_str0")
+        for uniq, v in line_strs:
+            a.label(".Llstr_%s" % uniq)
+            bs = v if isinstance(v, (bytes, bytearray)) else v.encode("latin-1")
+            for b in bs: a.emit(".byte %d" % b)
+            a.emit(".byte 0")
     if forest.get("_strs"):
         a.emit('.section .debug_str,"MS",@progbits,1')
         a.label(".Ldebug_str0")
